@@ -2659,7 +2659,9 @@ Section Cover.
     exists r' k' evs, read_batch C (w_fs w') (r, drainq k1, []) (k_queue k1) = Done (r', k', evs) /\
       wf_fs w' /\ isdir_in root (w_fs w') /\ Cover (w_fs w') k' r' /\ k_queue k' = [] /\
       wfp r' = wfp r /\ pfw r' = pfw r /\ k_watches k' = k_watches k /\
-      pend r' = (if c_fix_moveout C then Some (k_next_cookie k, p) else None).
+      pend r' = (if c_fix_moveout C then Some (k_next_cookie k, p) else None) /\
+      mvf r' = aset N.eqb (k_next_cookie k) p (mvf r) /\ k_next_wd k' = k_next_wd k /\
+      k_next_cookie k' = (k_next_cookie k + 1)%N /\ Forall rsafe evs.
   Proof.
     intros S Np Nq Hrec Hmf Hmt Ha Elp Dep Sp Hpr Sq k1. destruct S as [W Hr I Cv Hq Hpd].
     assert (W' : wf_fs w') by exact (wf_apply_op w (Rename p q) w' W (conj Np Nq) Ha).
@@ -2697,13 +2699,13 @@ Section Cover.
     rewrite (read_one_from _ _ _ _ _ (dirname p)); try (vm_compute; reflexivity); [|cbn [mv_from kev k_wd]; now rewrite Cpp, Edp].
     cbn [mv_from kev k_cookie k_name k_mask]. change (is_directory (N.lor IN_MOVED_FROM IN_ISDIR)) with true.
     rewrite Hrec, !andb_true_r, SPp, Hpd.
-    eexists _, _, _. split; [reflexivity|]. cbn [wfp pfw pend drainq kset_queue k_queue k_watches w_fs].
+    eexists _, _, _. split; [reflexivity|]. cbn [wfp pfw pend mvf drainq kset_queue k_queue k_watches k_next_wd k_next_cookie w_fs app].
     split; [exact W'|].
     assert (Hkeep_root : ren p q er = er).
     { unfold ren. rewrite Eer. destruct (beqb root p) eqn:E; [apply beqb_eq in E; congruence|]. now rewrite (under_antisym _ _ Urp). }
     assert (Hsub : forall e, In e t1 -> In e (w_fs w)).
     { intros e He. destruct Hq1 as [[_ ->]|(v & _ & -> & _)]; [assumption | now apply fremove_in in He]. }
-    split; [|split; [|repeat split; reflexivity]].
+    split; [|split; [|repeat split; try reflexivity; repeat constructor; apply good_rsafe; split; reflexivity]].
     - exists er. split; [|auto]. rewrite frename_map, <- Hkeep_root. apply in_map.
       destruct Hq1 as [[_ ->]|(v & _ & -> & _)]; [assumption | apply fremove_in; split; [assumption | congruence]].
     - intros e' He' De' Se'. rewrite frename_map in He'. apply in_map_iff in He' as (e & <- & He0). assert (He := Hsub e He0).
